@@ -66,7 +66,8 @@ def setups(draw, max_cells=60, max_mags=6, max_events=300, lo=-12, hi=3, holes=T
     nobs = draw(st.one_of(st.integers(0, 4), st.integers(0, max_events)))
     pool = draw(st.lists(st.tuples(st.integers(0, nc - 1), st.integers(0, nm - 1)), min_size=1, max_size=max(1, min(12, nc * nm))))
     obs = [list(draw(st.sampled_from(pool))) for _ in range(nobs)]
-    return {"region": rc, "mags": mc, "rates": rates, "obs": obs, "layout": draw(st.sampled_from(["C", "C", "F", "view"]))}
+    return {"region": rc, "mags": mc, "rates": rates, "obs": obs, "layout": draw(st.sampled_from(["C", "C", "F", "view"])),
+            "prehistory": draw(st.sampled_from([0, 0, 1, 2, 3]))}
 
 
 # ------------------------------------------------------------------ builders
@@ -97,7 +98,29 @@ class Setup:
             big = numpy.full((2 * data.shape[0], 2 * data.shape[1]), 123.456)
             big[::2, ::2] = data
             data = big[::2, ::2]
-        return GriddedForecast(start_time=T0, end_time=T1, data=data, region=region, magnitudes=numpy.array(self.edges), name=name or self.name)
+        f = GriddedForecast(start_time=T0, end_time=T1, data=data, region=region, magnitudes=numpy.array(self.edges), name=name or self.name)
+        if self.case.get("prehistory", 0) & 1:
+            self.touch_forecast(f)
+        return f
+
+    @staticmethod
+    def touch_forecast(f):
+        """a history that nets to the identity: scale(2), every observer read, scale(1).  Scaling is
+        absolute (C11), so the object must be indistinguishable from a new one - anything remembered from the scaled state is
+        not.  Failures here are not judged (the property checks that follow see the consequences)."""
+        def observers():
+            for g in (lambda: f.sum(), lambda: f.event_count, lambda: f.spatial_counts(), lambda: f.magnitude_counts(),
+                      lambda: f.spatial_counts(cartesian=True), lambda: numpy.asarray(f.data).shape):
+                try:
+                    g()
+                except Exception:  # noqa: BLE001
+                    pass
+        try:
+            f.scale(2.0)
+            observers()         # first reads happen in the scaled state
+            f.scale(1)
+        except Exception:  # noqa: BLE001
+            pass
 
     def event(self, i, k, m):
         ci, cj = self.L.cells[k]
@@ -115,7 +138,16 @@ class Setup:
     def catalog(self, region, obs=None, name="obs"):
         from csep.core.catalogs import CSEPCatalog
         obs = self.obs if obs is None else obs
-        return CSEPCatalog(data=[self.event(i, k, m) for i, (k, m) in enumerate(obs)], region=region, name=name)
+        cat = CSEPCatalog(data=[self.event(i, k, m) for i, (k, m) in enumerate(obs)], region=region, name=name)
+        if self.case.get("prehistory", 0) & 2:
+            # observers read once before the catalog is used (nothing may be remembered in a way that changes later answers)
+            for g in (lambda: cat.event_count, lambda: cat.get_magnitudes(), lambda: cat.spatial_counts(), lambda: cat.magnitude_counts(),
+                      lambda: cat.spatial_magnitude_counts(), lambda: cat.get_mag_idx(), lambda: cat.get_spatial_idx()):
+                try:
+                    g()
+                except Exception:  # noqa: BLE001
+                    pass
+        return cat
 
     def counts(self, obs=None):
         obs = self.obs if obs is None else obs
